@@ -14,6 +14,7 @@ if [ -z "$SKIP_TESTS" ]; then
   echo "repo tests with patch: $t"
 fi
 cd /verif
+export VERIF_EVIDENCE_DIR=/verif/scratch/evidence_scratch
 for p in "$@"; do
   out=$(VERIF_REPO="$wt" ./check "$p" --tier "${TIER:-quick}" 2>&1); rc=$?
   echo "== $p rc=$rc"
